@@ -56,7 +56,7 @@ def rule_flag(ctx: Ctx) -> None:
     init = P.func("pipefunc._pipeline._base.Pipeline.__init__")
     cfg = ctx.cfg(init)
     sets = cfg.nodes(lambda s: isinstance(s, ast.Assign) and norm(s.targets[0]) == "self.validate_type_annotations")
-    adds = cfg.nodes(lambda s: isinstance(s, (ast.For,)) and "self.add(" in norm(s))
+    adds = cfg.nodes(lambda s: isinstance(s, (ast.For,)) and ("self.add(" in norm(s) or "self._add(" in norm(s) or "self.functions.append(" in norm(s)))
     if sets and adds:
         ok = all(any(cfg.dominates(s0, a) for s0 in sets) for a in adds)
         ctx.add("1-flag", init, cfg.stmt[sets[0]], ok, "the flag is stored before any function is added" if ok else "functions are added (and validated) before the validate_type_annotations flag is stored", key="flag-before-add")
